@@ -62,7 +62,7 @@ void init() {
 	sa.sa_sigaction = handler;
 	sa.sa_flags = SA_SIGINFO | SA_ONSTACK | SA_NODEFER;
 	sigemptyset(&sa.sa_mask);
-	int sigs[] = {SIGSEGV, SIGBUS, SIGILL, SIGFPE};
+	int sigs[] = {SIGSEGV, SIGBUS, SIGILL, SIGFPE, SIGALRM}; // SIGALRM: watchdog of call_timed()
 	for (int s : sigs) sigaction(s, &sa, 0);
 }
 
@@ -185,6 +185,7 @@ std::string symbolize(void *addr) {
 
 std::string Fault::describe() const {
 	char buf[512];
+	if (sig == SIGALRM) { snprintf(buf, sizeof buf, "the call did not return within the watchdog time (interrupted at rip=%s)", symbolize(rip).c_str()); return buf; }
 	std::string where = "outside arena";
 	uint8_t *a = (uint8_t *) addr;
 	if (g_base && a >= g_base && a < g_base + ARENA) {
